@@ -72,4 +72,20 @@ PROPS = {
                  "fired_path_rehash_in_place", "fired_path_resize", "fired_no_drop_glue", "grow_hash_panic_contents_checked"],
         assumptions=COMMON_ASSUME + ["one injected panic at a time (a second panic while unwinding would abort by language rule, outside the property)"],
     ),
+    "C08": dict(
+        level="exploration",
+        rule=("for 20 collection x element-layout instantiations (HashMap/HashSet/HashTable; element sizes 1,2,3,4,6,8,24,48,64,128,208) and 11 state recipes "
+              "(fresh, with_capacity, small, one group, multi group, full, tombstone-saturated, tombstoned, grown-then-shrunk, drained, churned) x 13 hash plans: "
+              "each inequality of the capacity contract is evaluated at the public API together with the allocator ledger: no allocation for new/default/"
+              "with_capacity(0); capacity()>=len(); allocation_size()==bytes held; inserting capacity()-len() absent keys allocates nothing; reserve(n)/"
+              "with_capacity(n) for n in boundary values around 7/8*2^k and 0..4*capacity; shrink_to(m)/shrink_to_fit keep contents, never enlarge, keep "
+              "capacity()>=max(len,min(m,previous capacity)), free everything when empty and m=0, and end no larger than a fresh with_capacity(max(len,m)); "
+              "clear/drain keep the block. evaluations = inequality groups evaluated; distinct = (collection, recipe, check kind, table class) as a set"),
+        lanes=dict(
+            quick=lanes(("dbg", 10, 12000), ("generic", 6, 12000)),
+            thorough=lanes(("dbg", 16, 120000), ("generic", 16, 120000)),
+        ),
+        require=["room_fills", "states_with_tombstones", "recipe_Saturated", "recipe_Fresh", "recipe_Full"],
+        assumptions=COMMON_ASSUME,
+    ),
 }
